@@ -19,28 +19,28 @@ CLAIMS = {
     "C14": dict(
         level="exploration",
         technique="differential property-based testing against independent reference implementations: analytic magnitude responses of the cited state-variable designs vs measured sine gains, f64 re-implementations (SVF, delay line with feedback effects, Freeverb network) compared sample by sample, closed-form compressor / distortion / decibel / equal-power laws",
-        text="Each case builds one effect through its public builder with generated parameters and sample rate and checks it against a reference written from the cited papers and sources: measured sine gain vs the analytic response (filter, EQ) with corner / centre / shelf landmarks, sample-by-sample agreement (filter on noise, delay impulse trains incl. non-linear feedback effects, reverb vs an f64 Freeverb network, decaying tail), compressor steady-state reduction, attack and release time constants per channel (signal on both, left only, right only), filter / EQ responses also on an instance that lived through a device-rate change, distortion curves and small-signal transparency, volume and panning laws. Search with shrinking.",
+        text="Each case builds one effect through its public builder with generated parameters and sample rate and checks it against a reference written from the cited papers and sources: measured sine gain vs the analytic response (filter, EQ) with corner / centre / shelf landmarks, sample-by-sample agreement (filter on noise, delay impulse trains incl. non-linear feedback effects, reverb vs an f64 Freeverb network, decaying tail), compressor steady-state reduction, attack and release time constants per channel (signal on both, left only, right only), filter / EQ responses also on an instance that lived through a device-rate change, distortion curves and small-signal transparency, volume and panning laws. Search with shrinking. Added in the last session: an EQ band that rested at exactly 0 dB and is sent to another gain must agree frame by frame with the same band started 0.001 dB away (the filter state follows the input while the band is flat).",
         note="The filter's resonance-to-damping mapping (k = 2 - 1.9 r) is taken from the implementation it cites. Tolerances (0.1 dB widened for corners far below the sample rate, 1e-5 .. 2e-4 per sample) are stated in the rule.",
         design="5/C14",
     ),
     "C16": dict(
         level="exploration",
         technique="stateful property-based testing with probe effects recording init / on_change_sample_rate / dt through generated add-track / change-rate / callback histories, plus metamorphic checks of seconds and hertz across a mid-stream rate change",
-        text="Histories of adding tracks (nested, send, main), dropping them, changing the device rate (8k..192k) and running callbacks in any order are audited through probe effects: at every process call dt and the last announced rate must be the rate in force. With a rate change at a generated callback, an index-coded sound must keep pitch (1.5 frames) and duration (one callback), a clock its speed (1e-9), a volume tween its duration (one callback), a delay its time (exact frame), a low-pass its corner gain (0.2 dB). Any built-in effect (feedback effects nested in delays included) that has only processed silence at one rate and is then told another must match a fresh instance at the new rate. Search with shrinking.",
+        text="Histories of adding tracks (nested, send, main), dropping them, changing the device rate (8k..192k) and running callbacks in any order are audited through probe effects: at every process call dt and the last announced rate must be the rate in force. With a rate change at a generated callback, an index-coded sound must keep pitch (1.5 frames) and duration (one callback), a clock its speed (1e-9), a volume tween its duration (one callback), a delay its time (exact frame), a low-pass its corner gain (0.2 dB). Any built-in effect (feedback effects nested in delays included) that has only processed silence at one rate and is then told another must match a fresh instance at the new rate. Search with shrinking. Added in the last session: an impulse in flight in a delay line when the rate changes may be dropped, but any echo of it must come out at a multiple of the delay time in seconds of audio.",
         note="The schedule 'rate read, rate changes, track enqueued' inside add_sub_track is represented by its sequential form (track queued, then change), which is the known finding excluded by construction; no H4 hook was needed.",
         design="5/C16",
     ),
     "C15": dict(
         level="exploration",
         technique="property-based testing with a reference formula plus metamorphic relations between renders (monotonicity along a ray, mirroring, rigid motion, strength 0, listener drop / slot reuse, tween end state, nesting) through the real manager",
-        text="Generated listener / emitter geometries (coincident, axis-aligned, in range, up to 1e5 units away), distance ranges, attenuation curves, strengths and stereo inputs are rendered through the manager; the steady-state frame must match the documented level = attenuation(distance) x ear-gain model (f64) and satisfy one of twelve relations between independent renders (monotone along a ray, mirroring, rigid motion, strength 0, dropped listener / slot reuse, listener-distance parameters on the track, a plain child and a plain grandchild, tweens ending at the static result, a move commanded before the first callback being complete from the second one on, nesting). Search with shrinking.",
+        text="Generated listener / emitter geometries (coincident, axis-aligned, in range, up to 1e5 units away), distance ranges, attenuation curves, strengths and stereo inputs are rendered through the manager; the steady-state frame must match the documented level = attenuation(distance) x ear-gain model (f64) and satisfy one of twelve relations between independent renders (monotone along a ray, mirroring, rigid motion, strength 0, dropped listener / slot reuse, listener-distance parameters on the track, a plain child and a plain grandchild, tweens ending at the static result, a move commanded before the first callback being complete from the second one on, nesting). Search with shrinking. Added in the last session: tracks moved while they are still empty and played on afterwards; a NaN that the renderer had to replace by silence (hook kira::verif::nan_scrubbed) counts as non-finite spatial output.",
         note="Tolerances scale with coordinate magnitude (f32 positions), the steepness of the attenuation curve and the jump of the decibel scale at -60 dB; all stated in the evidence.",
         design="5/C15",
     ),
     "C17": dict(
         level="exploration",
         technique="model-based property testing: LFO driven directly against an independent waveform/phase model over generated set_*/update histories, and modulator -> parameter chains through the real renderer with probe modulators and probe effects recording per-internal-buffer values",
-        text="LFOs (four waveforms, frequencies to 1e5 Hz, signed amplitudes/offsets/phases, tweens, set_phase/set_waveform) must stay within offset +- |amplitude| and on the documented curve after every update; through the renderer, probe-effect parameters linked to tweeners, LFOs and probe modulators via generated mappings (inverted ranges, all easings) must equal the mapping of the modulator's value of the same internal buffer, hold after the modulator is dropped, and probe modulators must be updated exactly once per buffer with the right dt; a sound whose volume is linked to a modulator and whose start is delayed must come in at the mapped gain. Search with shrinking.",
+        text="LFOs (four waveforms, frequencies to 1e5 Hz, signed amplitudes/offsets/phases, tweens, set_phase/set_waveform) must stay within offset +- |amplitude| and on the documented curve after every update; through the renderer, probe-effect parameters linked to tweeners, LFOs and probe modulators via generated mappings (inverted ranges, all easings) must equal the mapping of the modulator's value of the same internal buffer, hold after the modulator is dropped, and probe modulators must be updated exactly once per buffer with the right dt; a sound whose volume is linked to a modulator and whose start is delayed must come in at the mapped gain. Search with shrinking. Added in the last session: once a modulator is removed the linked parameter holds its value over the whole internal buffer (both ends are recorded), not only at its end.",
         note="The tweener's curve is C06's. The order-dependent one-buffer lag of a modulator linked to a later-created modulator is a known finding excluded by construction.",
         design="5/C17",
     ),
@@ -75,7 +75,7 @@ CLAIMS = {
     "C11": dict(
         level="exploration",
         technique="metamorphic property-based testing: the same generated scene rendered from fresh managers under two (internal buffer size, callback partition) configurations and compared frame by frame",
-        text="Scenes with fixed parameters (static sounds at any rate/loop/pan/reverse/sample rate, track trees, sends, optional spatial tracks, all eight built-in effects incl. nested delay feedback) are rendered twice with independent buffer sizes 1..4096 and callback partitions (one-frame callbacks, non-multiples, buffers larger than the render); outputs must be bit-identical for scenes without recursive effects and spatial tracks, within 1e-6 with recursive effects (1e-5 with spatial tracks). Search with shrinking.",
+        text="Scenes with fixed parameters (static sounds at any rate/loop/pan/reverse/sample rate, track trees, sends, optional spatial tracks, all eight built-in effects incl. nested delay feedback) are rendered twice with independent buffer sizes 1..4096 and callback partitions (one-frame callbacks, non-multiples, buffers larger than the render); outputs must be bit-identical for scenes without recursive effects and spatial tracks, within 1e-6 with recursive effects (1e-5 with spatial tracks). Search with shrinking. The bound for scenes with spatial tracks also carries distortion drives and volumes above 0 dB (they amplify the spatial tracks' ulp noise).",
         note="Both renders come from the implementation itself (a metamorphic relation, no reference model). Spatial tracks get a tolerance because their per-frame listener interpolation is not bit-stable by 1-2 ulp; that is stated in the evidence.",
         design="5/C11",
     ),
@@ -89,28 +89,28 @@ CLAIMS = {
     "C10": dict(
         level="fault_enumeration",
         technique="fault-injection property-based testing with a scripted decoder (k-th decode / seek call fails once or forever) and real decoder threads paced through hook H2, over generated scenarios (natural end, stop, refused by a full track, track / manager dropped, paused parent) and decoder paces; bounded-exhaustive enumeration of every fault position of short streams",
-        text="Every case plays one streaming sound over a scripted decoder through the real manager. The decoder object's Drop is the observation that the decoding thread has ended: it must be seen within 4 s of the sound finishing, being stopped, failing, being refused by a full track or being discarded with its manager; the decode loop must not run without sleeping while it delivers nothing; after a scripted fault the sound must be Stopped after the next processed callback (after resume for a paused parent), unloaded one callback later, silent, and pop_error() must return the first fault; with a starving or stalled decoder the audible frames must be a strictly increasing subsequence of the index-coded source with at most one frame skipped per gap. All fault positions for stream lengths 1..24 (thorough 1..64) x packet sizes 1..4 (1..8) x once/forever x main/sub-track are enumerated; longer streams, scenarios and paces are random.",
+        text="Every case plays one streaming sound over a scripted decoder through the real manager. The decoder object's Drop is the observation that the decoding thread has ended: it must be seen within 4 s of the sound finishing, being stopped, failing, being refused by a full track or being discarded with its manager; the decode loop must not run without sleeping while it delivers nothing; after a scripted fault the sound must be Stopped after the next processed callback (after resume for a paused parent), unloaded one callback later, silent, and pop_error() must return the first fault; with a starving or stalled decoder the audible frames must be a strictly increasing subsequence of the index-coded source with at most one frame skipped per gap. All fault positions for stream lengths 1..24 (thorough 1..64) x packet sizes 1..4 (1..8) x once/forever x main/sub-track are enumerated; longer streams, scenarios and paces are random. Added in the last session: playback rates 1, 2 and 4 under starvation, sliced streams whose slice reaches past the audio with start positions up to the nominal end, no decoder error without a scripted fault, and a sound left to play with a decoder that keeps ahead must report Stopped once its audio is used up.",
         note="'Bounded time' is fixed at 4 s and the idle-spin bound at 2w+50 iterations per w ms. The track-handle-dropped scenario is a known finding (excluded by construction, replayed as a witness). The harness owns the schedule at decoder-step granularity, not inside a step.",
         design="5/C10",
     ),
     "C07": dict(
         level="exploration",
         technique="model-based stateful and metamorphic property testing of command delivery through the real manager (setter-vs-built steady-state relation for every setter; reference that applies the last command of each kind once at the start of the next callback: volume paths, token probes built on kira::command, seek jumps, decoder delivery log through hook H2, clock and tweener models) plus randomised real-thread races on the command primitive and on handles with monotone self-checking payloads",
-        text="Seven generated scenario families: a metamorphic relation over 43 setters of every handle type (scene built with A, setter called with B alone or as last of a burst, before the first or a later callback, instantly or tweened, must reach the steady state of a scene built with B, and A and B must be told apart by the same measure); volume setters with tweens on four resources of one signal path compared frame by frame with the reference; probe Sound / Effect / Modulator objects that read a token reader once per on_start_processing (reads must be exactly the last token of each burst, once, in the following callback, including tokens written before the probe is added or before its first callback); seek bursts on a static sound (exactly one audible jump, in the next callback, by the last command) and seek / loop-region bursts on a streaming sound whose decoder gets 0..130 steps per gap (delivered indices must equal a reference transport that applies the last command at the decoder's next step); clock start / pause / stop / set_speed and tweener set() bursts against reference models; a writer thread racing a reader on one CommandWriter / CommandReader pair (untorn, strictly newer, last write read); a gameplay thread playing a sound and raising volumes while callbacks run (output never decreases, ends at the last value). Search with shrinking.",
+        text="Seven generated scenario families: a metamorphic relation over 43 setters of every handle type (scene built with A, setter called with B alone or as last of a burst, before the first or a later callback, instantly or tweened, must reach the steady state of a scene built with B, and A and B must be told apart by the same measure); volume setters with tweens on four resources of one signal path compared frame by frame with the reference; probe Sound / Effect / Modulator objects that read a token reader once per on_start_processing (reads must be exactly the last token of each burst, once, in the following callback, including tokens written before the probe is added or before its first callback); seek bursts on a static sound (exactly one audible jump, in the next callback, by the last command) and seek / loop-region bursts on a streaming sound whose decoder gets 0..130 steps per gap (delivered indices must equal a reference transport that applies the last command at the decoder's next step); clock start / pause / stop / set_speed and tweener set() bursts against reference models; a writer thread racing a reader on one CommandWriter / CommandReader pair (untorn, strictly newer, last write read); a gameplay thread playing a sound and raising volumes while callbacks run (output never decreases, ends at the last value). Search with shrinking. Added in the last session: token probes on tracks nested under other tracks, sounds that receive commands while waiting for a delayed start, tweens written with a delay of zero, and a persisting track whose handle is dropped in the gap of its last command.",
         note="No yield-point hook (H3) was added: the triple buffer is an external crate, so whole-operation orders are exactly the generated histories, and orders inside a write/read are only reached by the two real-thread families, whose schedule belongs to the operating system (a torn or stale read there is detected when it happens, but cannot be forced).",
         design="5/C07",
     ),
     "C09": dict(
         level="exploration",
         technique="differential property-based testing: the same generated audio, settings and command history played as a static sound and as two streaming sounds over scripted decoders (different packet splits / seek behaviour), compared bit-for-bit in lock-step",
-        text="Each case runs three implementations side by side on identical process() calls and compares output frames bit-for-bit, playback states after every chunk and reported positions within one frame; the second streaming sound differs only in packet sizes and seek granularity, which must not change a single sample. The decoder threads are real; the harness owns their schedule at decoder-step / callback granularity through hook H2 so that 'the decoder keeps ahead' holds deterministically. Random search with shrinking, including streams longer than the 16384-frame ring, fades that outlast what the ring holds, and start positions at or past the end.",
+        text="Each case runs three implementations side by side on identical process() calls and compares output frames bit-for-bit, playback states after every chunk and reported positions within one frame; the second streaming sound differs only in packet sizes and seek granularity, which must not change a single sample. The decoder threads are real; the harness owns their schedule at decoder-step / callback granularity through hook H2 so that 'the decoder keeps ahead' holds deterministically. Random search with shrinking, including streams longer than the 16384-frame ring, fades that outlast what the ring holds, and start positions at or past the end. Added in the last session: half of the long cases at speed 1 put a callback boundary where the stream's 16384-slot frame ring wraps (reported position and output must not depend on it).",
         note="Sounds are driven directly with MockInfoBuilder. No seeks (as the property says). Playback speed x chunk size is kept below the ring size, otherwise no decoder can keep ahead.",
         design="5/C09",
     ),
     "C06": dict(
         level="exploration",
         technique="stateful property-based testing of kira::Parameter<T> and the tweener modulator against an independent tween model (own easing curves, exact start localisation) over generated set()/update() histories",
-        text="Histories of overlapping set() calls and update steps (zero / sub-update / long durations, all easings, immediate / delayed / clock starts, ten tweenable types plus the tweener modulator) are checked after every update: exact hold before the start, value on the model curve within float tolerance, exactly the target after the end, never outside [start, target], continuity of previous/interpolated values. The timing allowance of the property (one update for delayed and clock starts) is encoded in where the model lets the tween start. One case in six tweens a live volume (main track, sub-track, sound, volume-control effect) of a DC signal path through the real manager with callback sizes that are not multiples of the internal buffer and checks the output against the curve in elapsed audio time. Random search with shrinking.",
+        text="Histories of overlapping set() calls and update steps (zero / sub-update / long durations, all easings, immediate / delayed / clock starts, ten tweenable types plus the tweener modulator) are checked after every update: exact hold before the start, value on the model curve within float tolerance, exactly the target after the end, never outside [start, target], continuity of previous/interpolated values. The timing allowance of the property (one update for delayed and clock starts) is encoded in where the model lets the tween start. One case in six tweens a live volume (main track, sub-track, sound, volume-control effect) of a DC signal path through the real manager with callback sizes that are not multiples of the internal buffer and checks the output against the curve in elapsed audio time. Random search with shrinking. Added in the last session: volume tweens on a sub-track that is empty while the tween runs (the sound arrives later).",
         note="Parameters are driven directly with MockInfoBuilder (the mock clock shows end-of-update time, as the renderer does). The start value of a retarget is read from the parameter itself.",
         design="5/C06",
     ),
@@ -124,7 +124,7 @@ CLAIMS = {
     "C04": dict(
         level="exploration",
         technique="model-based property testing: independent f64 reference player (transport + 4-point Hermite) run side by side with Box<dyn Sound>, bit-exact comparison at rate +-1, bounded-exhaustive enumeration of all small cases",
-        text="Every case is compared frame by frame with a reference player written from the documented transport semantics: bit-for-bit (including first frame, loop wraps, reverse, slice edges, exact silence after the end, Stopped timing) when rate is +-1 at equal sample rates, within 1e-5 otherwise; seeks, loop-region changes and rate changes at arbitrary chunk boundaries; reported position and seek landing within one frame. All small cases (length <= 6 quick, <= 9 thorough) are enumerated exhaustively; larger ones are random.",
+        text="Every case is compared frame by frame with a reference player written from the documented transport semantics: bit-for-bit (including first frame, loop wraps, reverse, slice edges, exact silence after the end, Stopped timing) when rate is +-1 at equal sample rates, within 1e-5 otherwise; seeks, loop-region changes and rate changes at arbitrary chunk boundaries; reported position and seek landing within one frame. All small cases (length <= 6 quick, <= 9 thorough) are enumerated exhaustively; larger ones are random. Added in the last session: position() is also read before the first callback.",
         note="The sound is driven directly (SoundData::into_sound + MockInfoBuilder), as the property's observe_at says. Device rates with R*(1/R) != 1.0 in f64 are a known finding and excluded from the bit-exact mode.",
         design="5/C04",
     ),
